@@ -63,6 +63,8 @@ func Build(body *ast.BlockStmt, noReturn NoReturnFunc) *Graph {
 	b.cur = g.Entry
 	b.stmt(body)
 	if b.cur != nil {
+		// falling off the end is materialised as a return at the closing brace (as go/cfg does)
+		b.add(&ast.ReturnStmt{Return: body.Rbrace})
 		b.jump(g.Exit)
 	}
 	g.computeDominators()
